@@ -40,6 +40,7 @@ type Exec struct {
 	oldCtr   int
 	invoked  map[string]bool // names of function-typed params tracked
 	specMode bool            // evaluating a contract expression: no obligations, no assumptions
+	nWF           int // number of hypotheses before the function's own requires were assumed
 	extraRequires []*SExpr
 	noReturnOK    bool
 }
@@ -125,9 +126,9 @@ func NewExec(P *Program, C *Contracts, fn *ssa.Function) *Exec {
 	e := &Exec{P: P, C: C, fn: fn, ctx: newVCtx(), vals: map[ssa.Value]Value{}, params: map[string]Value{}, lets: map[string]Value{},
 		counts: map[string]int{}, callOrd: map[string]int{}}
 	e.topName = funcKey(fn)
-	e.fc = C.Funcs[e.topName]
+	e.fc = C.lookup(e.topName)
 	if e.fc == nil && fn.Origin() != nil {
-		e.fc = C.Funcs[funcKey(fn.Origin())]
+		e.fc = C.lookup(funcKey(fn.Origin()))
 	}
 	if e.fc != nil {
 		e.defaultProps = e.fc.Props
@@ -176,6 +177,7 @@ func (e *Exec) Verify() (obls []*Obligation, err error) {
 	}
 	e.initGhost(st)
 	e.entry = st.clone()
+	e.nWF = len(e.ctx.hyps)
 	if e.fc != nil {
 		env := e.newEnv(st, e.entry)
 		for _, l := range e.fc.Lets {
@@ -189,6 +191,7 @@ func (e *Exec) Verify() (obls []*Obligation, err error) {
 			env.polarity = polAssume
 			e.ctx.assume(env.evalBool(x))
 		}
+		e.refinePre(st)
 	}
 	out := e.run(st, nil)
 	_ = out
@@ -709,7 +712,7 @@ func (e *Exec) doReturn(r *ssa.Return, st *State) {
 				pe.pkg = pt.pkg
 			}
 			g := pe.evalBool(pt.x)
-			label := clauseLabel(cl, k)
+			label := clauseLabel(cl, k) + e.retSuffix(r)
 			text := cl.Text
 			if len(parts) > 1 {
 				label = fmt.Sprintf("%s.%d", label, pi+1)
@@ -718,8 +721,115 @@ func (e *Exec) doReturn(r *ssa.Return, st *State) {
 			e.addObl("post", label, text, e.fc.clauseProps(cl), st, g, r.Pos())
 		}
 	}
+	e.refinePost(st, vals, r)
 	if e.fc.HasModifies {
 		e.frameObligations(st, r.Pos())
+	}
+}
+
+// ifaceEnv: environment in which an interface contract is evaluated for this implementation
+// (interface parameter names bound positionally to the implementation's parameters).
+func (e *Exec) ifaceEnv(ifc *FuncContract, cur, old *State) *Env {
+	env := e.newEnv(cur, old)
+	env.site = true
+	if pk := e.P.SPkgs[ifc.Pkg]; pk != nil {
+		env.pkg = pk.Pkg
+	}
+	names := ifc.ParamNames
+	params := e.fn.Params
+	if e.fn.Signature.Recv() != nil && len(params) > 0 {
+		env.vars["recv"] = e.vals[params[0]]
+		params = params[1:]
+	}
+	for i, p := range params {
+		if i < len(names) && names[i] != "" {
+			env.vars[names[i]] = e.vals[p]
+		}
+	}
+	return env
+}
+
+func (e *Exec) ifaceContracts() []*FuncContract {
+	var out []*FuncContract
+	for _, k := range e.fc.Implements {
+		ifc := e.C.Funcs[k]
+		if ifc == nil {
+			panic(specErr("implements: no contract " + k))
+		}
+		if ifc.ParamNames == nil {
+			ifc.ParamNames = e.ifaceParamNames(k)
+		}
+		out = append(out, ifc)
+	}
+	return out
+}
+
+// ifaceParamNames finds the parameter names of the interface method named by key.
+func (e *Exec) ifaceParamNames(key string) []string {
+	k := strings.TrimPrefix(key, "iface:")
+	dot := strings.LastIndex(k, ".")
+	meth := k[dot+1:]
+	tpath := k[:dot]
+	d2 := strings.LastIndex(tpath, ".")
+	pkgPath, tname := tpath[:d2], tpath[d2+1:]
+	sp := e.P.SPkgs[pkgPath]
+	if sp == nil {
+		panic(specErr("implements: package " + pkgPath + " not loaded"))
+	}
+	obj := sp.Pkg.Scope().Lookup(tname)
+	if obj == nil {
+		panic(specErr("implements: type " + tname + " not found"))
+	}
+	it, ok := obj.Type().Underlying().(*types.Interface)
+	if !ok {
+		panic(specErr("implements: " + tname + " is not an interface"))
+	}
+	for i := 0; i < it.NumMethods(); i++ {
+		if it.Method(i).Name() == meth {
+			return sigParamNames(it.Method(i).Type().(*types.Signature))
+		}
+	}
+	panic(specErr("implements: method " + meth + " not found"))
+}
+
+// refinePre: the interface's precondition implies the implementation's (weaker precondition).
+func (e *Exec) refinePre(st *State) {
+	for _, ifc := range e.ifaceContracts() {
+		ienv := e.ifaceEnv(ifc, st, e.entry)
+		hyp := True
+		for _, cl := range ifc.Requires {
+			ienv.polarity = polProve // no quantifier registration; requires are quantifier-free here
+			hyp = And(hyp, ienv.evalBool(cl.Expr))
+		}
+		env := e.newEnv(st, e.entry)
+		for k, cl := range e.fc.Requires {
+			env.polarity = polProve
+			g := env.evalBool(cl.Expr)
+			// proved from the interface precondition alone: obligation recorded before the
+			// implementation's own requires were assumed is not possible here, so the goal is
+			// hyp ==> g under a path condition of true and with no hypotheses of its own.
+			e.ctx.seq++
+			o := &Obligation{Name: e.oblName("refines-pre", shortKey(ifc.Key)+"/"+clauseLabel(cl, k)), Kind: "refines", Props: e.fc.clauseProps(cl),
+				Clause: "interface requires ==> " + cl.Text, Goal: Imp(hyp, g), PC: True, NHyps: e.nWF, NQ: 0, Seq: e.ctx.seq, Fn: e.topName}
+			e.ctx.obls = append(e.ctx.obls, o)
+		}
+	}
+}
+
+// refinePost: the implementation establishes the interface's postconditions.
+func (e *Exec) refinePost(st *State, vals []Value, r *ssa.Return) {
+	for _, ifc := range e.ifaceContracts() {
+		ienv := e.ifaceEnv(ifc, st, e.entry)
+		ienv.results = vals
+		for k, cl := range ifc.Ensures {
+			ienv.polarity = polProve
+			g := ienv.evalBool(cl.Expr)
+			props := cl.Props
+			if len(props) == 0 {
+				props = e.fc.Props
+			}
+			e.addObl("refines", shortKey(ifc.Key)+"/"+clauseLabel(cl, k)+e.retSuffix(r), cl.Text, props, st, g, r.Pos())
+		}
 	}
 }
 
@@ -762,6 +872,7 @@ func (e *Exec) globalPtr(g *ssa.Global) PtrV {
 	name := "global:" + g.Pkg.Pkg.Path() + "." + g.Name()
 	switch under(elem).(type) {
 	case *types.Struct:
+		e.ctx.assume(Lt(ConstI(0, Ref), Var(name, Ref)))
 		return PtrV{Kind: pObj, Addr: Var(name, Ref), T: elem, FirstClass: true}
 	case *types.Array:
 		au := under(elem).(*types.Array)
@@ -859,4 +970,26 @@ func (e *Exec) splitConj(env *Env, x *SExpr, vars map[string]Value, depth int) [
 		}
 	}
 	return mk(x)
+}
+
+// retSuffix distinguishes the return statements of a function (ordinal in source order).
+func (e *Exec) retSuffix(r *ssa.Return) string {
+	var rets []*ssa.Return
+	for _, b := range e.fn.Blocks {
+		if len(b.Instrs) > 0 {
+			if x, ok := b.Instrs[len(b.Instrs)-1].(*ssa.Return); ok {
+				rets = append(rets, x)
+			}
+		}
+	}
+	if len(rets) <= 1 {
+		return ""
+	}
+	sort.Slice(rets, func(i, j int) bool { return rets[i].Pos() < rets[j].Pos() })
+	for i, x := range rets {
+		if x == r {
+			return fmt.Sprintf("@ret%d", i+1)
+		}
+	}
+	return ""
 }
